@@ -82,3 +82,32 @@ func c42IsConstInt(v ssa.Value, n int64) bool {
 	cv, ok := constOf(v)
 	return ok && cv.ExactString() == fmt.Sprint(n)
 }
+
+// c44BackSlice visits v and everything it is computed from (operands,
+// transitively; values stored into address-taken locals it loads).
+func c44BackSlice(v ssa.Value, visit func(ssa.Value)) {
+	seen := map[ssa.Value]bool{}
+	var rec func(v ssa.Value, d int)
+	rec = func(v ssa.Value, d int) {
+		if v == nil || seen[v] || d > 16 {
+			return
+		}
+		seen[v] = true
+		visit(v)
+		if al, ok := v.(*ssa.Alloc); ok && al.Referrers() != nil {
+			for _, r := range *al.Referrers() {
+				if st, ok := r.(*ssa.Store); ok && st.Addr == ssa.Value(al) {
+					rec(st.Val, d+1)
+				}
+			}
+		}
+		if in, ok := v.(ssa.Instruction); ok {
+			for _, op := range in.Operands(nil) {
+				if op != nil && *op != nil {
+					rec(*op, d+1)
+				}
+			}
+		}
+	}
+	rec(v, 0)
+}
